@@ -7,7 +7,7 @@
 (*   kind "SE3"    : r = <<x, y, z, w>> (unit quaternion, Hamilton convention)        *)
 (* Composition is rigid-motion composition, a (-) b == b^-1 (+) a, the point action   *)
 (* is t + R v with R v computed by quaternion conjugation (SE3) / the 2x2 rotation.   *)
-EXTENDS Dual
+EXTENDS Dual, Kinds
 
 a (+) b == DAdd(a,b)
 a (-) b == DSub(a,b)
@@ -15,9 +15,6 @@ a ** b == DMul(a,b)
 D0 == DI(0)
 D1 == DI(1)
 
-Dim(k)  == CASE k = "R2" -> 2 [] k = "R3" -> 3 [] k = "SE2" -> 2 [] k = "SE3" -> 3     \* spatial dimension
-CDim(k) == CASE k = "R2" -> 2 [] k = "R3" -> 3 [] k = "SE2" -> 3 [] k = "SE3" -> 6     \* compact (tangent) dimension
-FDim(k) == CASE k = "R2" -> 2 [] k = "R3" -> 3 [] k = "SE2" -> 3 [] k = "SE3" -> 7     \* stored dimension
 
 VAdd(u,v) == Vec([i \in 1..Len(u) |-> u[i] (+) v[i]])
 VSub(u,v) == Vec([i \in 1..Len(u) |-> u[i] (-) v[i]])
